@@ -778,6 +778,8 @@ impl<S: Sample> RenderedImage<S> {
     }
 
     pub(crate) fn try_take_blended(&self) -> Option<ImageWithRegion> {
+        #[cfg(jxl_oxide_verif)]
+        crate::state::verif_sched::yield_point("try_take_blended", self.image.frame.idx);
         let mut grid_lock = self.image.render.lock().unwrap();
         match std::mem::take(&mut *grid_lock) {
             FrameRender::Blended(image) => {
